@@ -289,17 +289,24 @@ class Ctx:
     def stream(self, name, harness_cmd, driver_cmd, tags="", extra_args=None, replay_lines=None):
         """Run one generator stream through implementation and model, return mismatches
         as a list of (index, case, model, observed)."""
-        # (re)build what can be built: a broken proof obligation must not stop the correspondence run that
-        # searches for a concrete failing input - extraction only needs the model files
-        build_coq(target="theories/Extract/Extract.vo")
-        ok, out = build_ml()
-        if not ok:
-            self.broken("model-build", "extraction / OCaml build of the model failed", out[-3000:])
-            return None
-        ok, out, binp = build_go(tags)
-        if not ok:
-            self.broken("harness-build", "the Go harness does not build against /repo's working tree", out[-3000:])
-            return None
+        built = getattr(self, "_built", None)
+        if built is None:
+            built = self._built = {}
+        if replay_lines is not None and tags in built:
+            binp = built[tags]        # replays / shrinking inside one run: everything was built by the first call
+        else:
+            # (re)build what can be built: a broken proof obligation must not stop the correspondence run that
+            # searches for a concrete failing input - extraction only needs the model files
+            build_coq(target="theories/Extract/Extract.vo")
+            ok, out = build_ml()
+            if not ok:
+                self.broken("model-build", "extraction / OCaml build of the model failed", out[-3000:])
+                return None
+            ok, out, binp = build_go(tags)
+            if not ok:
+                self.broken("harness-build", "the Go harness does not build against /repo's working tree", out[-3000:])
+                return None
+            built[tags] = binp
         args = [binp, harness_cmd, "-seed", str(self.seed), "-tier", self.tier, "-out", self.dir, "-name", name]
         if extra_args:
             args += extra_args
